@@ -3,11 +3,16 @@
 import json
 ALL=[json.loads(l)['id'] for l in open('/verif/properties.jsonl')]
 ENGINES={
+ "libmc":("harness/src/libmc.rs (+ workers.rs)","bounded-exhaustive enumeration of source texts through compile/format/error rendering and of core-library calls over a boundary-value pool in memory-limited worker processes"),
  "codemc":("harness/src/codemc.rs","explicit-state exploration of the abstract machine of every function body of every compiled chunk; determinism by re-compilation in and across processes; size ladders across every encoding limit; dynamic corollary in memory-limited worker processes"),
  "progmc":("harness/src/progmc.rs (+ kast.rs renderer, kref.rs reference interpreter, fam_*.rs families)","bounded-exhaustive enumeration of program families; each program runs on the real koto and on the reference interpreter kref; observations compared"),
  "lexmc":("harness/src/lexmc.rs","exhaustive prefix-tree exploration of all strings up to a length bound through the real lexer"),
 }
 CHECKS={
+ "C06":dict(engine="libmc",category="exploration",
+   text="Exhaustive within bounds, oracle 'returns, never panics': (1) every string of length <= 4 (thorough 5) over the 22-symbol lexer alphabet, every sequence of <= 3 (thorough 4) tokens over a 70-token alphabet, every line prefix and leading byte prefix of every corpus file and the corpus' one-token neighbourhood, each through compile, format (two option sets) and error rendering; (2) every native function of the core modules (enumerated from the live prelude, 158 functions) x every argument tuple of arity 0..2 (thorough: a reduced arity-3 product) from a 49-value boundary pool that includes the receiver itself, callbacks that mutate the receiver, objects with throwing metakeys, extreme numbers/ranges and string/tuple slices; every unary/binary/compound/index operator over pool pairs; and iterators that went stale (advanced, then the container mutated) x every iterator function; each call is followed by display and debug display of its result and iteration of a returned iterator. Calls run in worker processes under address-space and wall limits: allocation failure, capacity overflow and native hangs are out-of-scope resource exhaustion and are counted.",
+   note="Panics of the generated programs of the progmc profiles are reported by C01-C04/C16/C17. Memory exhaustion and native-stack exhaustion are outside the property.",
+   technique="bounded-exhaustive input and call enumeration on the real code in supervised worker processes, no-panic oracle"),
  "C05":dict(engine="codemc",category="model_checking",
    text="For every chunk the real compiler emits for (1) the generated programs of the six progmc profiles, (2) the repository's scripts and documentation examples, (3) their complete single-token delete/duplicate/swap neighbourhood and (4) size ladders that cross each encoding limit (locals, parameters, call arguments, literal sizes, nesting depth, forward and backward jump distances around 65535 bytes for every control construct), each under three compiler settings, every function body is explored exhaustively as a transition system over (ip, sequence-builder depth, string-builder depth, try stack) with all branch, loop-exit and exception edges; in every reachable state the instruction must decode, jump targets must be instruction boundaries inside the same body, register and constant operands must be in range and of the right kind, and builders/tries must balance (equal on all paths, empty at Return). Chunks are recompiled in the same and in a second process (byte-identical), size-ladder programs are run and must either be rejected at compile time or compute the arithmetically known result, and mutated programs are run in memory-limited workers (no internal faults).",
    note="The exception edge assumes unwinding restores builder depths (checked dynamically by C04/C07). Register operands are required to be < NewFrame.register_count. Programs that could touch the host (io/os/import) are compiled and explored but not executed.",
